@@ -31,7 +31,8 @@ let labels = [
   "modules/odal.(*State).AssetInstances", 12; "models.(*Session).EntityByID", 13; "models.(*EntityComponentStore).DeleteByEntityID", 14;
   "models.(*Session).RemoveEntity", 15; "modules/vikja.(*State).RemoveEntityActions", 16; "modules/odal.(*State).RemoveAssetInstance", 17;
   "models.(*Entity).SetPose", 18; "models.(*Session).AddEntity", 19; "models.(*EntityComponentStore).Update", 20;
-  "models.(*EntityComponentStore).Notify", 21; "models.(*Session).GetParticipantsByIDs", 22; "modules/vikja.(*State).EntityAction", 23;
+  "models.(*EntityComponentStore).Notify", 21; "models.(*Session).GetParticipantsByIDs", 22; "models.(*Session).BroadcastTo", 22 (* since /repo 24b0f8e the recipients are looked up and served in BroadcastTo's own critical section *);
+  "modules/vikja.(*State).EntityAction", 23;
   "modules/vikja.(*State).SetEntityAction", 24; "models.(*EntityComponentStore).Add", 25 ]
 
 let fail_decode what line = Printf.printf "DECODEFAIL %s: %s\n" what line; exit 2
